@@ -30,7 +30,7 @@ class Sim:
     def obs(self, i):
         s = self.pool[i]
         al = [str(j) for j in range(4) if j != i and self.pool[j] is not None and self.pool[j]['buf'] is s['buf'] and len(s['buf'].d) > 0]
-        return 'e=%s s=%s csz=%d sz=%d al=%s dh=1' % (C.fmt(self.es), C.fmt(self.st), len(s['buf'].d), C.prod(self.es), ''.join(al) or '-')
+        return 'e=%s s=%s csz=%d sz=%d al=%s dh=1 fw=1' % (C.fmt(self.es), C.fmt(self.st), len(s['buf'].d), C.prod(self.es), ''.join(al) or '-')
 
 def gen_seq(rnd, sim, n_ops):
     """generates an admissible command sequence and, alongside, the outputs the property prescribes"""
